@@ -685,3 +685,29 @@ contract('mapproxy.image.mask:mask_polygons', props=['C14', 'C10'],
          opaque_spec={'transform_to': {'pure': True}, 'intersection': {'returns': 'opt[opaque]', 'pure': True},
                       'flatten_to_polygons': {'pure': True}, 'bbox_polygon': {'pure': True}},
          trace=[_mask_from_coverage])
+
+
+# ---- group layers: "opaque" is asked about what the group really draws ------------------------------------------------------------------
+def _group_opaque(ex, st, post, result):
+    import z3
+    h = st.heap[post.env['self'].ref]
+    this = h['this']
+    q = post.env['query']
+    io = [e for i, e in T.evs(st, 'is_opaque')]
+    own = [e for e in io if e.recv is not None and hasattr(this, 'val') and e.recv.t.eq(this.val.t)]
+    has_this = ex.truth(st, this)
+    # a group that has a layer of its own renders only that layer (map_layers_for_query): its opacity alone decides
+    g = z3.If(has_this, z3.And(z3.BoolVal(len(io) == 1 and len(own) == 1 and own[0].args[-1] is q), ex.truth(st, result) == (ex.truth(st, own[0].result) if own else z3.BoolVal(False))),
+              z3.BoolVal(not own))
+    yield ('group_is_opaque_iff_what_it_draws_is', g,
+           'a group layer with a layer of its own is drawn from that layer only, so it hides the layers below exactly when THAT layer '
+           'is opaque for the query - the sub-layers, which are not drawn, are not asked')
+
+
+cls(SW + 'WMSGroupLayer', fields=dict(name='opaque', title='opaque', this='opt[opaque]', layers='list[opaque]', md='opaque',
+                                      is_active='opaque', has_legend='opaque', queryable='opaque', extent='opaque', res_range='opaque'))
+contract(SW + 'WMSGroupLayer.is_opaque', props=['C14'],
+         types=dict(query='opaque'), returns='bool', default_callee='opaque',
+         opaque_spec={'is_opaque': {'returns': 'bool', 'pure': True}},
+         loops={0: dict(inv=[], types={})},
+         trace=[_group_opaque])
